@@ -9,7 +9,7 @@ package main
 //   res                  class of the last call: ok | e<api error code> | deep      (model only)
 //   startcall M ARGS...  real NtfnsHandler.Start(), the call right after it, Stop(), reopen   -> done | PANIC …
 //   rmrun W              run the queued removal of W to completion (asyncRemove)      -> ok | err
-//   impstep W            one asyncImport batch of W                                    -> fin | more | err
+//   impstep W            follower catches up with the node's tip, then one asyncImport batch of W -> fin | more | retry | err
 //   cur                  symbolic name of the wallet in use, "-" if none
 //   x OP...              robust mode: run OP (any op above or a base op), output only done | PANIC … | HANG
 //   tx …                 as in led, amounts scaled by 10^6 (so that fees and dust limits are reachable)
@@ -593,6 +593,7 @@ func (x *apiExec) call(m string, a []string) string {
 		return "bad-op"
 	}
 	cls := "none"
+	stale := apiStaleLoc[m] && x.diverged()
 	if p := apiGuarded(func() { cls = x.invoke(m, a) }); p != "" {
 		x.last = "panic"
 		return p
@@ -604,8 +605,27 @@ func (x *apiExec) call(m string, a []string) string {
 	if d := deepClasses[m]; d != nil && d[cls] && os.Getenv("VERIF_NODEEP") == "" {
 		cls = "deep"
 	}
+	if stale && os.Getenv("VERIF_NODEEP") == "" {
+		cls = "deep"
+	}
 	x.last = cls
 	return "done"
+}
+
+// Methods that re-read a previous transaction from the node at the (height, byte range) the wallet recorded.
+// While the follower's tip is not on the node's chain the block at that height may be another one: the bytes
+// at the recorded range then decode to the same transaction, to another one or to nothing, depending on the
+// byte layout of the other block - not modelled; the error class is reported as `deep` on both sides.
+var apiStaleLoc = map[string]bool{"CreateRawTransaction": true, "SignRawTransaction": true, "GetTransactionFee": true}
+
+// diverged: the follower's tip is not a block of the node's best chain.
+func (x *apiExec) diverged() bool {
+	e := x.e
+	bh, bhash := e.wm.VerifBestBlock()
+	if int(bh) >= len(e.chain) {
+		return true
+	}
+	return e.blocks[e.chain[bh]].hash != bhash
 }
 
 // Exec runs one op under a watchdog: an op that does not return within apiOpTimeout is reported as
@@ -710,8 +730,15 @@ func (x *apiExec) exec1(a []string) string {
 		e.wm.VerifDrainTasks()
 		out := ""
 		if p := apiGuarded(func() {
+			// asyncImport scans only while the follower is on the node's branch (otherwise "retry later"):
+			// tell the follower about the node's tip first, as the running node would have done by now
+			if _, bhash := e.wm.VerifBestBlock(); bhash != e.Tip().hash {
+				e.wm.VerifProcessBlock(e.Tip().msg)
+			}
 			fin, err := e.wm.VerifImportStep(id)
 			switch {
+			case err == masswallet.ErrImportingContinuable:
+				out = "retry"
 			case err != nil:
 				out = errTok(err)
 			case fin:
